@@ -476,3 +476,165 @@ func stepOb(c *Ctx, out *Outcome, rule, name string, ok bool, detail, pos string
 	}
 	c.Ob(rule, name, ok, detail, pos)
 }
+
+// ---- the data structures whose answers drive the iterations ---------------------------------
+
+func checkItemSetOps(c *Ctx, p *Prog, rule string) {
+	// AddItem: an item is appended iff its key is not yet in imap, and is entered under the same key
+	if fn := p.Func(lr1ItemsPkg, "*ItemSet.AddItem"); fn == nil {
+		c.Undecided(rule, "lr1 ItemSet.AddItem", "function not found")
+	} else if hs := loopHeaders(fn); len(hs) != 1 {
+		c.Undecided(rule, "lr1 ItemSet.AddItem", "expected one loop", p.FnPos(fn))
+	} else {
+		for _, has := range []bool{true, false} {
+			var keys []string
+			var apps []string
+			reg := &Region{Fn: fn, Start: hs[0], Cuts: cutSet(hs[0]), PhiInputs: map[string]Val{"rangeindex": VSym{Name: "k"}},
+				PreWorld: &MapWorld{IntFn: func(n string) (int64, bool) { return 3, strings.HasPrefix(n, "len(") }},
+				LookupVal: func(r *Run, m, k Val, t types.Type) (Val, Val) {
+					keys = append(keys, render(m)+"["+render(k)+"]")
+					return VOpq{"old"}, boolConst(has)
+				},
+				Summaries: map[string]Summary{"builtin:append": func(r *Run, cc *ssa.CallCommon, args []Val) (Val, error) {
+					apps = append(apps, render(args[0])+" ++ ["+strings.Join(r.VarargElems(args[1]), ",")+"]")
+					return VOpq{"ITEMS2"}, nil
+				}}}
+			out := InterpretSafe(reg, &MapWorld{Ints: map[string]int64{"k": 0}, IntFn: func(n string) (int64, bool) { return 3, strings.HasPrefix(n, "len(") }})
+			up := evs(out, "mapupdate")
+			var ok bool
+			if has {
+				ok = up == "" && len(apps) == 0 && len(out.Stores) == 0
+			} else {
+				ok = len(keys) >= 1 && up == "mapupdate "+keys[0]+" = &*items[k+1]" &&
+					len(apps) == 1 && apps[0] == "this.Items ++ [&*items[k+1]]" && out.Stores["this.Items"] == "ITEMS2"
+			}
+			stepOb(c, out, rule, fmt.Sprintf("lr1 ItemSet.AddItem: key already present=%v", has), strings.HasPrefix(out.Term, "cut:") && ok, fmt.Sprintf("lookups %v updates [%s] appends %v stores %v %s; required: an item is entered under the key it was looked up with and appended to Items iff that key was absent", keys, up, apps, out.Stores, out.Undecided), p.FnPos(fn))
+		}
+	}
+	if fn := p.Func(lr1ItemsPkg, "*ItemSet.Contain"); fn != nil {
+		for _, has := range []bool{true, false} {
+			reg := &Region{Fn: fn, LookupVal: func(r *Run, m, k Val, t types.Type) (Val, Val) { return VOpq{"old"}, boolConst(has) }}
+			out := InterpretSafe(reg, &MapWorld{})
+			stepOb(c, out, rule, fmt.Sprintf("lr1 ItemSet.Contain: key present=%v", has), out.Term == "return" && len(out.Results) == 1 && out.Results[0] == fmt.Sprint(has), fmt.Sprintf("result %v %s", out.Results, out.Undecided), p.FnPos(fn))
+		}
+	}
+	// Equal: same number of items and every key of this in that
+	if fn := p.Func(lr1ItemsPkg, "*ItemSet.Equal"); fn == nil {
+		c.Undecided(rule, "lr1 ItemSet.Equal", "function not found")
+	} else if hs := loopHeaders(fn); len(hs) != 1 {
+		c.Undecided(rule, "lr1 ItemSet.Equal", "expected one loop", p.FnPos(fn))
+	} else {
+		for _, wd := range []struct {
+			name     string
+			isNil    bool
+			la, lb   int64
+			want     string
+		}{{"other set is nil", true, 2, 2, "return false"}, {"different number of items", false, 2, 3, "return false"}, {"same number of items", false, 2, 2, "cut"}} {
+			reg := &Region{Fn: fn, Cuts: cutSet(hs[0])}
+			if wd.isNil {
+				reg.Params = map[string]Val{"that": VConst{T: fn.Params[1].Type()}}
+			}
+			out := InterpretSafe(reg, &MapWorld{Ints: map[string]int64{"len(this.Items)": wd.la, "len(that.Items)": wd.lb}})
+			got := out.Term
+			if got == "return" {
+				got += " " + strings.Join(out.Results, ",")
+			}
+			stepOb(c, out, rule, "lr1 ItemSet.Equal: "+wd.name, strings.HasPrefix(got, wd.want), fmt.Sprintf("got %s %s asked %v; required %s", got, out.Undecided, out.Asked, wd.want), p.FnPos(fn))
+		}
+		for _, wd := range []struct {
+			name      string
+			more, has bool
+			want      string
+		}{{"a key of this set is missing in the other", true, false, "return false"}, {"key present in the other", true, true, "cut"}, {"all keys seen", false, true, "return true"}} {
+			var looked []string
+			reg := &Region{Fn: fn, Start: hs[0], Cuts: cutSet(hs[0]), PreWorld: &MapWorld{Ints: map[string]int64{"len(this.Items)": 2, "len(that.Items)": 2}},
+				LookupVal: func(r *Run, m, k Val, t types.Type) (Val, Val) {
+					looked = append(looked, render(m)+"["+render(k)+"]")
+					return VOpq{"it"}, boolConst(wd.has)
+				}}
+			out := InterpretSafe(reg, &MapWorld{AtomFn: func(k string) (bool, bool) { return wd.more, strings.HasPrefix(k, "more ") }})
+			got := out.Term
+			if got == "return" {
+				got += " " + strings.Join(out.Results, ",")
+			}
+			ok := strings.HasPrefix(got, wd.want)
+			if wd.more {
+				ok = ok && len(looked) == 1 && looked[0] == "that.imap[key iter(this.imap)]"
+			}
+			stepOb(c, out, rule, "lr1 ItemSet.Equal step: "+wd.name, ok, fmt.Sprintf("got %s lookups %v %s; required %s, looking up each key of this.imap in that.imap", got, looked, out.Undecided, wd.want), p.FnPos(fn))
+		}
+	}
+	// GetIndex: the index of the first equal set, else -1
+	if fn := p.Func(lr1ItemsPkg, "*ItemSets.GetIndex"); fn == nil {
+		c.Undecided(rule, "lr1 ItemSets.GetIndex", "function not found")
+	} else if hs := loopHeaders(fn); len(hs) != 1 {
+		c.Undecided(rule, "lr1 ItemSets.GetIndex", "expected one loop", p.FnPos(fn))
+	} else {
+		sm := func(eq bool, calls *[]string) map[string]Summary {
+			return map[string]Summary{
+				"*.Size": func(r *Run, cc *ssa.CallCommon, args []Val) (Val, error) { return VSym{Name: "ISIZE"}, nil },
+				"*.Equal": func(r *Run, cc *ssa.CallCommon, args []Val) (Val, error) {
+					*calls = append(*calls, "Equal("+render(args[0])+","+render(args[1])+")")
+					return boolConst(eq), nil
+				}}
+		}
+		for _, wd := range []struct {
+			name       string
+			idx, n     int64
+			eq         bool
+			want       string
+		}{{"set k equals I", 1, 4, true, "return k+1"}, {"set k differs", 1, 4, false, "cut"}, {"no set equals I", 3, 4, false, "return -1"}} {
+			var calls []string
+			reg := &Region{Fn: fn, Start: hs[0], Cuts: cutSet(hs[0]), Summaries: sm(wd.eq, &calls), PhiInputs: map[string]Val{"rangeindex": VSym{Name: "k"}},
+				PreWorld: &MapWorld{Ints: map[string]int64{"ISIZE": 2}, IntFn: func(n string) (int64, bool) { return 3, strings.HasPrefix(n, "len(") }}}
+			out := InterpretSafe(reg, &MapWorld{Ints: map[string]int64{"k": wd.idx, "ISIZE": 2}, IntFn: func(n string) (int64, bool) { return wd.n, strings.HasPrefix(n, "len(") }})
+			got := out.Term
+			if got == "return" {
+				got += " " + strings.Join(out.Results, ",")
+			}
+			ok := strings.HasPrefix(got, wd.want)
+			if wd.idx+1 < wd.n {
+				ok = ok && len(calls) == 1 && (calls[0] == "Equal(&*this.sets[k+1],&I)" || calls[0] == "Equal(&I,&*this.sets[k+1])")
+			}
+			stepOb(c, out, rule, "lr1 ItemSets.GetIndex: "+wd.name, ok, fmt.Sprintf("got %s calls %v %s; required %s", got, calls, out.Undecided, wd.want), p.FnPos(fn))
+		}
+		var calls []string
+		reg := &Region{Fn: fn, Cuts: cutSet(hs[0]), Summaries: sm(false, &calls)}
+		out := InterpretSafe(reg, &MapWorld{Ints: map[string]int64{"ISIZE": 0}})
+		stepOb(c, out, rule, "lr1 ItemSets.GetIndex: empty set", out.Term == "return" && len(out.Results) == 1 && out.Results[0] == "-1", fmt.Sprintf("got %s %v %s; required -1", out.Term, out.Results, out.Undecided), p.FnPos(fn))
+	}
+	// FirstSets.AddToken / AddSet: report growth truthfully
+	if fn := p.Func(firstPkg, "*FirstSets.AddToken"); fn != nil {
+		for _, wd := range []struct{ setExists, contains bool }{{true, true}, {true, false}, {false, false}} {
+			n := 0
+			reg := &Region{Fn: fn, LookupVal: func(r *Run, m, k Val, t types.Type) (Val, Val) {
+				n++
+				if n == 1 {
+					return VOpq{"SET"}, boolConst(wd.setExists)
+				}
+				return boolConst(true), boolConst(wd.contains)
+			}}
+			out := InterpretSafe(reg, &MapWorld{})
+			up := evs(out, "mapupdate")
+			added := len(out.Results) == 1 && out.Results[0] == "true"
+			setUpd := strings.Contains(up, "[terminal] = true")
+			ok := out.Term == "return" && added == !wd.contains && setUpd == !wd.contains && (wd.setExists || strings.Contains(up, "[prodName] = "))
+			stepOb(c, out, rule, fmt.Sprintf("FirstSets.AddToken: set exists=%v, symbol present=%v", wd.setExists, wd.contains), ok, fmt.Sprintf("result %v updates [%s] %s; required: the symbol is entered and true returned iff it was absent (a missing set is created and stored first)", out.Results, up, out.Undecided), p.FnPos(fn))
+		}
+	}
+	if fn := p.Func(firstPkg, "*FirstSets.AddSet"); fn != nil {
+		if hs := loopHeaders(fn); len(hs) == 1 {
+			for _, wd := range []struct{ before, added bool }{{false, true}, {false, false}, {true, false}, {true, true}} {
+				var calls []string
+				reg := &Region{Fn: fn, Start: hs[0], Cuts: cutSet(hs[0]), PhiInputs: map[string]Val{"symbolsAdded": boolConst(wd.before)},
+					Summaries: map[string]Summary{"*.AddToken": func(r *Run, cc *ssa.CallCommon, args []Val) (Val, error) {
+						calls = append(calls, "AddToken("+render(args[1])+","+render(args[2])+")")
+						return boolConst(wd.added), nil
+					}}}
+				out := InterpretSafe(reg, &MapWorld{AtomFn: func(k string) (bool, bool) { return true, strings.HasPrefix(k, "more ") }})
+				ok := strings.HasPrefix(out.Term, "cut:") && len(calls) == 1 && calls[0] == "AddToken(prodName,key iter(terminals))" && out.NextPhi["symbolsAdded"] == fmt.Sprint(wd.before || wd.added)
+				stepOb(c, out, rule, fmt.Sprintf("FirstSets.AddSet step: grown before=%v, this symbol new=%v", wd.before, wd.added), ok, fmt.Sprintf("calls %v next=%v %s; required: every symbol of the set is added to the production's set and the result is true iff any was new", calls, out.NextPhi, out.Undecided), p.FnPos(fn))
+			}
+		}
+	}
+}
